@@ -27,6 +27,13 @@ fn firsts(a: &[E]) -> BTreeMap<i32, i32> {
     }
     m
 }
+fn counts(a: &[E]) -> BTreeMap<i32, i32> {
+    let mut m = BTreeMap::new();
+    for (k, _) in a {
+        *m.entry(*k).or_insert(0) += 1;
+    }
+    m
+}
 fn fold3(vals: impl Iterator<Item = i32>) -> i32 {
     vals.fold(0i32, |acc, v| acc.wrapping_mul(3).wrapping_add(v))
 }
@@ -116,6 +123,163 @@ pub fn corpus() -> Vec<Prog> {
             }));
         prog!(v, c_join_bounded, "a.join(source_iter)", Seq, b = false, s = false, keyed = false,
             Some(|a: &[E], _b: &[E], _s: i32| RefOut::Stream(crate::refsem::r_join(a.to_vec(), vec![(0, 5), (1, 6), (0, 7)]))));
+        // ---- x_*: remaining safe public APIs, depth 1
+        prog!(v, x_thr_count_1, "a.count().threshold_greater_or_equal(1)", Seq, b = false, s = false, keyed = false,
+            Some(|a: &[E], _b: &[E], _s: i32| RefOut::Stream(if a.len() >= 1 { vec![(0, 1)] } else { vec![] })));
+        prog!(v, x_thr_count_2, "a.count().threshold_greater_or_equal(2)", Seq, b = false, s = false, keyed = false,
+            Some(|a: &[E], _b: &[E], _s: i32| RefOut::Stream(if a.len() >= 2 { vec![(0, 2)] } else { vec![] })));
+        prog!(v, x_thr_count_3, "a.count().threshold_greater_or_equal(3)", Seq, b = false, s = false, keyed = false,
+            Some(|a: &[E], _b: &[E], _s: i32| RefOut::Stream(if a.len() >= 3 { vec![(0, 3)] } else { vec![] })));
+        prog!(v, x_thr_count_s, "a.count().threshold_greater_or_equal(s)", Seq, b = false, s = true, keyed = false,
+            Some(|a: &[E], _b: &[E], s: i32| RefOut::Stream(if a.len() as i32 >= s { vec![(0, s)] } else { vec![] })));
+        prog!(v, x_thr_fold_1, "a.fold(sum, monotone).threshold_greater_or_equal(1)", Seq, b = false, s = false, keyed = false,
+            Some(|a: &[E], _b: &[E], _s: i32| RefOut::Stream(if a.iter().map(|e| e.1).sum::<i32>() >= 1 { vec![(0, 1)] } else { vec![] })));
+        prog!(v, x_thr_fold_2, "a.fold(sum, monotone).threshold_greater_or_equal(2)", Seq, b = false, s = false, keyed = false,
+            Some(|a: &[E], _b: &[E], _s: i32| RefOut::Stream(if a.iter().map(|e| e.1).sum::<i32>() >= 2 { vec![(0, 2)] } else { vec![] })));
+        prog!(v, x_thr_fold_3, "a.fold(sum, monotone).threshold_greater_or_equal(3)", Seq, b = false, s = false, keyed = false,
+            Some(|a: &[E], _b: &[E], _s: i32| RefOut::Stream(if a.iter().map(|e| e.1).sum::<i32>() >= 3 { vec![(0, 3)] } else { vec![] })));
+        prog!(v, x_kthr_uniform_1, "keyed.value_counts().threshold_greater_or_equal_uniform(1)", Multiset, b = false, s = false, keyed = false,
+            Some(|a: &[E], _b: &[E], _s: i32| RefOut::Stream(counts(a).into_iter().filter(|(_, c)| *c >= 1).map(|(k, _)| (k, 1)).collect())));
+        prog!(v, x_kthr_uniform_2, "keyed.value_counts().threshold_greater_or_equal_uniform(2)", Multiset, b = false, s = false, keyed = false,
+            Some(|a: &[E], _b: &[E], _s: i32| RefOut::Stream(counts(a).into_iter().filter(|(_, c)| *c >= 2).map(|(k, _)| (k, 2)).collect())));
+        prog!(v, x_kthr_counts, "keyed(a).value_counts().threshold_greater_or_equal(keyed(b).first())", Multiset, b = true, s = false, keyed = false,
+            Some(|a: &[E], b: &[E], _s: i32| {
+                let c = counts(a);
+                RefOut::Stream(firsts(b).into_iter().filter(|(k, t)| c.get(k).is_some_and(|n| *n >= *t)).collect())
+            }));
+        prog!(v, x_kthr_first, "keyed(a).first().threshold_greater_or_equal(keyed(b).first())", Multiset, b = true, s = false, keyed = false,
+            Some(|a: &[E], b: &[E], _s: i32| {
+                let f = firsts(a);
+                RefOut::Stream(firsts(b).into_iter().filter(|(k, t)| f.get(k).is_some_and(|n| *n >= *t)).collect())
+            }));
+        prog!(v, x_sg_map, "a.fold().map()", Last, b = false, s = false, keyed = false,
+            Some(|a: &[E], _b: &[E], _s: i32| RefOut::Value(vec![(fold3(a.iter().map(|e| e.1)).wrapping_mul(2).wrapping_add(1)) as i64])));
+        prog!(v, x_sg_filter_map, "a.count().filter_map()", Last, b = false, s = false, keyed = false,
+            Some(|a: &[E], _b: &[E], _s: i32| RefOut::Value(if a.len() % 2 == 0 { vec![-1001, a.len() as i64 + 10] } else { vec![-1000] })));
+        prog!(v, x_sg_into_optional, "a.max().into_singleton().into_optional()", Last, b = false, s = false, keyed = false,
+            Some(|a: &[E], _b: &[E], _s: i32| RefOut::Value(e_opt_pair(a.iter().max().copied()))));
+        prog!(v, x_sg_not, "!a.first().is_some()", Last, b = false, s = false, keyed = false,
+            Some(|a: &[E], _b: &[E], _s: i32| RefOut::Value(vec![a.is_empty() as i64])));
+        prog!(v, x_sg_bool_filter_if, "a.filter_if((s==1 or s==2) and !(s==2))", Seq, b = false, s = true, keyed = false,
+            Some(|a: &[E], _b: &[E], s: i32| RefOut::Stream(if s == 1 { a.to_vec() } else { vec![] })));
+        prog!(v, x_sg_filter_if, "s.filter_if(s==1).into_stream().chain(a)", Seq, b = false, s = true, keyed = false,
+            Some(|a: &[E], _b: &[E], s: i32| {
+                let mut v = if s == 1 { vec![(9, s)] } else { vec![] };
+                v.extend_from_slice(a);
+                RefOut::Stream(v)
+            }));
+        prog!(v, x_sg_flat_map_ordered, "s.flat_map_ordered().chain(a)", Seq, b = false, s = true, keyed = false,
+            Some(|a: &[E], _b: &[E], s: i32| {
+                let mut v = vec![(8, s), (9, s)];
+                v.extend_from_slice(a);
+                RefOut::Stream(v)
+            }));
+        prog!(v, x_sg_flatten_unordered, "s.map().flatten_unordered().chain(a)", Multiset, b = false, s = true, keyed = false,
+            Some(|a: &[E], _b: &[E], s: i32| {
+                let mut v = vec![(8, s), (9, s)];
+                v.extend_from_slice(a);
+                RefOut::Stream(v)
+            }));
+        prog!(v, x_op_map, "a.max().map()", Last, b = false, s = false, keyed = false,
+            Some(|a: &[E], _b: &[E], _s: i32| RefOut::Value(e_opt_pair(a.iter().max().map(|e| (e.0, e.1 + 1))))));
+        prog!(v, x_op_filter, "a.max().filter()", Last, b = false, s = false, keyed = false,
+            Some(|a: &[E], _b: &[E], _s: i32| RefOut::Value(e_opt_pair(a.iter().max().copied().filter(|e| e.1 != 0)))));
+        prog!(v, x_op_filter_map, "a.last().filter_map()", Last, b = false, s = false, keyed = false,
+            Some(|a: &[E], _b: &[E], _s: i32| RefOut::Value(match a.last() {
+                Some((k, v)) if *v > 0 => vec![-1001, (k + v) as i64],
+                _ => vec![-1000],
+            })));
+        prog!(v, x_op_unwrap_or, "a.max().unwrap_or(b.fold(last))", Last, b = true, s = false, keyed = false,
+            Some(|a: &[E], b: &[E], _s: i32| {
+                let (k, v) = a.iter().max().copied().unwrap_or(b.last().copied().unwrap_or((7, 7)));
+                RefOut::Value(vec![k as i64, v as i64])
+            }));
+        prog!(v, x_op_unwrap_or_default, "a.min().unwrap_or_default()", Last, b = false, s = false, keyed = false,
+            Some(|a: &[E], _b: &[E], _s: i32| {
+                let (k, v) = a.iter().min().copied().unwrap_or((0, 0));
+                RefOut::Value(vec![k as i64, v as i64])
+            }));
+        prog!(v, x_op_is_none, "a.filter().first().is_none()", Last, b = false, s = false, keyed = false,
+            Some(|a: &[E], _b: &[E], _s: i32| RefOut::Value(vec![!a.iter().any(|e| e.1 == 2) as i64])));
+        prog!(v, x_op_into_keyed_singleton, "a.max().into_keyed_singleton()", Last, b = false, s = false, keyed = false,
+            Some(|a: &[E], _b: &[E], _s: i32| RefOut::Value(match a.iter().max() {
+                Some((k, v)) => vec![-2001, *k as i64, *v as i64],
+                None => vec![-2000],
+            })));
+        prog!(v, x_op_bounded, "bounded optional filter/zip/is_some_and_equals/filter_if/flatten", Seq, b = false, s = true, keyed = false,
+            Some(|a: &[E], _b: &[E], s: i32| {
+                let mut v = if s == 1 { vec![(1, 1), (7, 1)] } else { vec![] };
+                v.extend_from_slice(a);
+                RefOut::Stream(v)
+            }));
+        prog!(v, x_ks_values, "keyed.first().values()", Multiset, b = false, s = false, keyed = false,
+            Some(|a: &[E], _b: &[E], _s: i32| RefOut::Stream(firsts(a).into_iter().map(|(_, v)| (0, v)).collect())));
+        prog!(v, x_ks_keys, "keyed.first().keys()", Multiset, b = false, s = false, keyed = false,
+            Some(|a: &[E], _b: &[E], _s: i32| RefOut::Stream(firsts(a).into_iter().map(|(k, _)| (k, 0)).collect())));
+        prog!(v, x_ks_map_with_key_inspect, "keyed.first().map_with_key().inspect().inspect_with_key()", Multiset, b = false, s = false, keyed = false,
+            Some(|a: &[E], _b: &[E], _s: i32| RefOut::Stream(firsts(a).into_iter().map(|(k, v)| (k, v + 10 * k)).collect())));
+        prog!(v, x_ks_filter_map, "keyed.first().filter_map()", Multiset, b = false, s = false, keyed = false,
+            Some(|a: &[E], _b: &[E], _s: i32| RefOut::Stream(firsts(a).into_iter().filter(|(_, v)| *v > 0).map(|(k, v)| (k, v - 1)).collect())));
+        prog!(v, x_ks_filter_key_not_in, "keyed.first().filter_key_not_in([1])", Multiset, b = false, s = false, keyed = false,
+            Some(|a: &[E], _b: &[E], _s: i32| RefOut::Stream(firsts(a).into_iter().filter(|(k, _)| *k != 1).collect())));
+        prog!(v, x_ks_into_keyed_stream, "keyed.first().into_keyed_stream()", KeyedSeq, b = false, s = false, keyed = false,
+            Some(|a: &[E], _b: &[E], _s: i32| RefOut::Stream(firsts(a).into_iter().collect())));
+        prog!(v, x_ks_unbounded_map_with_key, "keyed.fold().map_with_key()", Last, b = false, s = false, keyed = false,
+            Some(|a: &[E], _b: &[E], _s: i32| {
+                let mut m: BTreeMap<i32, i32> = BTreeMap::new();
+                for (k, x) in a {
+                    let e = m.entry(*k).or_insert(0);
+                    *e = e.wrapping_mul(3).wrapping_add(*x);
+                }
+                let mut out = vec![-2000 - m.len() as i64];
+                for (k, x) in m {
+                    out.push(k as i64);
+                    out.push((x + 1000 * k) as i64);
+                }
+                RefOut::Value(out)
+            }));
+        prog!(v, x_ks_get, "const_ks.get(s % 2).into_stream().chain(a)", Seq, b = false, s = true, keyed = false,
+            Some(|a: &[E], _b: &[E], s: i32| {
+                let mut v = vec![(9, if s % 2 == 0 { 5 } else { 6 })];
+                v.extend_from_slice(a);
+                RefOut::Stream(v)
+            }));
+        prog!(v, x_ks_join_keyed_stream, "const_ks.join_keyed_stream(keyed(a))", KeyedSeq, b = false, s = false, keyed = false,
+            Some(|a: &[E], _b: &[E], _s: i32| RefOut::Stream(a.iter().filter(|e| e.0 == 0 || e.0 == 1).map(|e| (e.0, e.1 * 10 + 5 + e.0)).collect())));
+        prog!(v, x_ks_join_lookup, "const_ks.join_keyed_singleton / lookup_keyed_singleton .chain(a)", Multiset, b = false, s = false, keyed = false,
+            Some(|a: &[E], _b: &[E], _s: i32| {
+                let mut v = vec![(1, 63), (100, 550), (101, 599)];
+                v.extend_from_slice(a);
+                RefOut::Stream(v)
+            }));
+        prog!(v, x_flatten_ordered, "a.map(vec).flatten_ordered()", Seq, b = false, s = false, keyed = false,
+            Some(|a: &[E], _b: &[E], _s: i32| RefOut::Stream(crate::refsem::r_flat_map(a.to_vec()))));
+        prog!(v, x_flatten_unordered, "a.map(vec).flatten_unordered()", Multiset, b = false, s = false, keyed = false,
+            Some(|a: &[E], _b: &[E], _s: i32| RefOut::Stream(crate::refsem::r_flat_map(a.to_vec()))));
+        prog!(v, x_partition_true, "a.partition().0", Seq, b = false, s = false, keyed = false,
+            Some(|a: &[E], _b: &[E], _s: i32| RefOut::Stream(a.iter().copied().filter(|e| e.1 != 1).collect())));
+        prog!(v, x_partition_merge, "a.partition(): true.map().merge_unordered(false)", Multiset, b = false, s = false, keyed = false,
+            Some(|a: &[E], _b: &[E], _s: i32| RefOut::Stream(a.iter().map(|e| if e.1 != 1 { (e.0, e.1 + 100) } else { *e }).collect())));
+        prog!(v, x_generator, "a.generator()", Seq, b = false, s = false, keyed = false,
+            Some(|a: &[E], _b: &[E], _s: i32| {
+                let mut acc = 0;
+                let mut out = vec![];
+                for (k, x) in a {
+                    acc += x;
+                    if acc >= 4 {
+                        out.push((*k, acc));
+                        break;
+                    } else if *x != 0 {
+                        out.push((*k, acc));
+                    }
+                }
+                RefOut::Stream(out)
+            }));
+        prog!(v, x_atomic_roundtrip, "a.ir_node_named().atomic().end_atomic()", Seq, b = false, s = false, keyed = false,
+            Some(|a: &[E], _b: &[E], _s: i32| RefOut::Stream(a.to_vec())));
+        prog!(v, x_bounded_nested_loop, "source_iter.cross_product_nested_loop(source_iter).chain(a)", Seq, b = false, s = false, keyed = false, None);
+        prog!(v, x_k_values, "keyed.values()", Multiset, b = false, s = false, keyed = false,
+            Some(|a: &[E], _b: &[E], _s: i32| RefOut::Stream(a.iter().map(|e| (0, e.1)).collect())));
         prog!(v, c_get_max_key, "a.into_keyed().first().get_max_key()", Last, b = false, s = false, keyed = false,
             Some(|a: &[E], _b: &[E], _s: i32| RefOut::Value(e_opt_pair(firsts(a).into_iter().next_back()))));
     v
@@ -181,6 +345,35 @@ pub fn keyed() -> Vec<KProg> {
             }
             vec![]
         });
+        kp!(v, k_prefix_drop, "keyed.prefix_key().drop_key_prefix()", Multiset, s = false, |_k, v, _s| {
+            let mut u = v.to_vec();
+            u.sort();
+            each(u.into_iter())
+        });
+        kp!(v, k_filter_with_key, "keyed.filter_with_key", KeyedSeq, s = false, |k, v, _s| each(v.iter().copied().filter(|x| k + x != 1)));
+        kp!(v, k_filter_map_with_key, "keyed.filter_map_with_key", KeyedSeq, s = false, |k, v, _s| each(v.iter().filter(|x| **x > 0).map(|x| x + 10 * k)));
+        kp!(v, k_inspect_with_key, "keyed.inspect_with_key", KeyedSeq, s = false, |_k, v, _s| each(v.iter().copied()));
+        kp!(v, k_flatten_ordered, "keyed.map(vec).flatten_ordered", KeyedSeq, s = false, |_k, v, _s| each(v.iter().flat_map(|x| [*x, x + 10])));
+        kp!(v, k_flat_map_flatten_unordered, "keyed.flat_map_unordered().flatten_unordered()", Multiset, s = false, |_k, v, _s| {
+            let mut u: Vec<i32> = v.iter().flat_map(|x| [*x, x + 10]).collect();
+            u.sort();
+            each(u.into_iter())
+        });
+        kp!(v, k_generator, "keyed.generator", KeyedSeq, s = false, |_k, v, _s| {
+            let mut acc = 0;
+            let mut out = vec![];
+            for x in v {
+                acc += x;
+                if acc >= 3 {
+                    out.push(acc);
+                    break;
+                } else if *x != 0 {
+                    out.push(acc);
+                }
+            }
+            each(out.into_iter())
+        });
+        kp!(v, k_atomic_roundtrip, "keyed.atomic().end_atomic()", KeyedSeq, s = false, |_k, v, _s| each(v.iter().copied()));
         kp!(v, k_unique, "keyed.unique", Multiset, s = false, |_k, v, _s| {
             let mut u: Vec<i32> = v.to_vec();
             u.sort();
